@@ -781,7 +781,8 @@ class ParallelProcess(Process):
         if run_pre_check:
             self.pre_send_command(command, args, kwargs)
         self.parent.send((command, args, kwargs))
-        verif_hooks.emit('send', name=self.name, command=command)
+        verif_hooks.emit(
+            'send', name=self.name, command=command, oid=id(self))
 
     def get_command_result(self) -> Update:
         """Get the result of a command sent to the parallel process.
@@ -807,7 +808,7 @@ class ParallelProcess(Process):
             self._collected = False
             result, self._command_result = self._command_result, None
             return result
-        verif_hooks.emit('recv', name=self.name)
+        verif_hooks.emit('recv', name=self.name, oid=id(self))
         return self.parent.recv()
 
     def initial_state(self, config: Optional[dict] = None) -> State:
@@ -882,7 +883,8 @@ class ParallelProcess(Process):
         """
         verif_hooks.emit(
             'end_begin', name=self.name, ended=self._ended,
-            pending=bool(self._pending_command))
+            pending=bool(self._pending_command) and not self._collected,
+            oid=id(self))
         # Only end once.
         if self._ended:
             return
@@ -903,7 +905,7 @@ class ParallelProcess(Process):
         self._ended = True
         # After the end, only a collected result is left to be fetched.
         self._pending_command = ('end', None, None) if collected else None
-        verif_hooks.emit('end_done', name=self.name)
+        verif_hooks.emit('end_done', name=self.name, oid=id(self))
 
     def __del__(self) -> None:
         self.end()
